@@ -71,8 +71,9 @@ def step(self, op):
                             'cascade_cycle': self.last_model.get('cascade_cycle'),
                             'model_expected_refusal': self.last_model.get('refusal')})
                 self.report('atomic', 'state_changed_after_failed_call', det)
-                self.tainted = mech
-                self.tainted_ctx = dict(self.failed_call_ctx or {})
+                if not self.tainted:      # the FIRST failed call that changed the session is the root cause of what follows
+                    self.tainted = mech
+                    self.tainted_ctx = dict(self.failed_call_ctx or {})
                 if self.stop_on_taint:
                     try: self.orm.rollback()
                     except Exception as e2: self.c('rollback_after_taint_raised.' + type(e2).__name__)
@@ -281,8 +282,9 @@ def _modify(self, op):
                         {'op': op, 'exc': name, 'msg': str(exc)[:200], 'diffs': [list(map(str, d)) for d in diffs[:6]],
                          'model_expected_refusal': refuse.kind if refuse else None, 'mechanism': mech,
                          'cascade_cycle': bool(m2.cascade_revisit)})
-            self.tainted = mech
-            self.tainted_ctx = dict(self.failed_call_ctx or {})
+            if not self.tainted:
+                self.tainted = mech
+                self.tainted_ctx = dict(self.failed_call_ctx or {})
             if self.stop_on_taint:
                 # the session no longer is what the model thinks it is: step() lets the walkers look at it
                 # (index / reverse monitors own what they see) and then ends it without committing
